@@ -365,3 +365,27 @@ PROPS["C01"] = dict(
                "functions (validated by C19).",
     assumptions=["coarsest level capped at 33 radial nodes for cost", "refinement radius (alpha_jump) inside the domain"],
 )
+
+PROPS["C02"] = dict(
+    harness="c02_order", flavour="rel",
+    quick=dict(workers=8, cases=96, min_nontrivial=40),
+    thorough=dict(workers=16, cases=2400, min_nontrivial=300, budget_s=3300),
+    rule="Triples (CartesianR2/CartesianR6/PolarR6 x Circular/Shafranov/Czarny x 7 profiles, shipped shape parameters and "
+         "documented alpha_jump), both boundary modes, take / give with all cache combinations, R0/Rmax 1e-5..0.1, "
+         "refinement pair divideBy2 = k -> k+1 on nr_exp=4 (finest 65x128 or 129x256 in quick, up to 257x512 in thorough). "
+         "Each of the four solves (pair x extrapolation off/on) uses FMG + F-cycles to rel 1e-11 / abs 1e-13; a case whose "
+         "algebraic error is not negligible (stop test missed, or API error figures and recomputed errors differ by >1e-3) "
+         "or whose error is below the rounding floor 1e3*eps*kappa_est*max|u| or unresolved (>0.1 max|u|) is inconclusive "
+         "(counted). Oracle: order log2(e_k/e_k+1) >= 1.8 without and > 3.0 with implicit extrapolation in the weighted l2 "
+         "and the max norm (errors recomputed from solution() with fresh ExactSolution objects), extrapolated error < plain "
+         "error on the finest grid. Known finding F12 (CartesianR6, max norm, order in [2.9,3.0]) excluded and counted. "
+         "Non-trivial: finest >= 65x128. Distinct: (triple, BC, strategy+caches, k, R0 decade).",
+    technique="property-based testing (rapidcheck) with a metamorphic refinement relation: error ratios between successive uniform refinements of manufactured problems",
+    level_text="For generated shipped problems the converged discrete solutions on two successive refinements are compared "
+               "with the exact solution; the observed order must match the stated one in both norms, with and without "
+               "extrapolation. Exploration over the triple/option space; asymptotic statements are judged on the finest "
+               "pair the tier affords.",
+    level_note="Trusted: exact solutions/source terms (validated by C19); thresholds 1.8 and 3.0 come from the statement; "
+               "inconclusive rules (algebraic error, rounding floor, resolution) are reported in the evidence.",
+    assumptions=["FMG + F-cycles to rel 1e-11 leave an algebraic error >= 3 orders below the discretisation error (checked per case)"],
+)
